@@ -74,12 +74,15 @@ class CancelOnShutdownExecutor(CanCustomizeBind, Executor):
         Note that there is no guarantee that the cancel will succeed, and only a single
         attempt is made to cancel any future.
         """
+        # Refuse further submits first. This waits for any submit() in progress,
+        # which holds the shutdown helper's lock and then takes self._lock:
+        # taking self._lock before the helper's lock here could deadlock with it.
+        if not self._shutdown():
+            return
+        metrics.EXEC_INPROGRESS.labels(
+            type="cancel_on_shutdown", executor=self._name
+        ).dec()
         with self._lock:
-            if not self._shutdown():
-                return
-            metrics.EXEC_INPROGRESS.labels(
-                type="cancel_on_shutdown", executor=self._name
-            ).dec()
             futures = self._futures.copy()
 
         for f in futures:
